@@ -52,7 +52,7 @@ def make_checker(ctx, files, clients, record):
 def run(ctx, build):
     R = ctx.try_runner('Tftp')
     rng = ctx.rng
-    nsess = 3000 if ctx.thorough else 120
+    nsess = 8000 if ctx.thorough else 120
     if ctx.widen:
         nsess *= 2
     rec = {'data': 0}
